@@ -14,8 +14,8 @@
      reachs rs a b     a = b or b is reachable from a through chain rows
 *)
 From Coq Require Import ZArith NArith List Bool.
-From V Require Import Model.Chain Proofs.ChainProofsA Proofs.ChainProofsB Proofs.ChainProofsC Proofs.ChainProofsD
-  Proofs.ChainProofsE.
+From V Require Import Model.Chain Gen.ChainPosGen Model.ChainGenEdit Proofs.ChainProofsA Proofs.ChainProofsB
+  Proofs.ChainProofsC Proofs.ChainProofsD Proofs.ChainProofsE Proofs.ChainProofsG.
 Import ListNotations.
 
 (* ---- chain definitions can never become cyclic: every history, unbounded ---- *)
@@ -88,6 +88,32 @@ Theorem edit_orders : forall s k p cs s', edit s k p cs = (s', Done) ->
   colls s' = colls s /\ cont s' = cont s.
 Proof. exact edit_orders_p. Qed.
 Print Assumptions edit_orders.
+
+(* ---- the same over the position arithmetic REGENERATED from the source (tie T: Gen/ChainPosGen.v is produced
+        from _find_prepend_position / _find_extend_position / _find_position_in_collection_chain on every run;
+        edit_gen = edit with gen_prepend_position / gen_extend_position computing the first new position) ---- *)
+Theorem edit_orders_gen : forall s k p cs s', edit_gen s k p cs = (s', Done) ->
+  children s' p =
+    match k with
+    | KRedefine => dedup cs
+    | KPrepend => dedup cs ++ without cs (children s p)
+    | KExtend => without cs (children s p) ++ dedup cs
+    | KRemove => without cs (children s p)
+    end /\
+  (forall q, q <> p -> children s' q = children s q) /\
+  colls s' = colls s /\ cont s' = cont s.
+Proof. exact edit_orders_gen_p. Qed.
+Print Assumptions edit_orders_gen.
+
+(* the regenerated start positions never collide with a surviving row: PRIMARY KEY (parent, position) holds *)
+Theorem positions_unique_gen : forall rs k p cs, pos_unique rs -> pos_unique (apply_edit_gen rs k p cs).
+Proof. exact positions_unique_gen_p. Qed.
+Print Assumptions positions_unique_gen.
+
+(* the hand-written model used by the correspondence run computes the same edit as the regenerated arithmetic *)
+Theorem generated_edit_is_model_edit : forall s k p cs, edit_gen s k p cs = edit s k p cs.
+Proof. exact edit_gen_eq. Qed.
+Print Assumptions generated_edit_is_model_edit.
 
 (* a refused operation (of any kind) changes nothing *)
 Theorem refused_changes_nothing : forall s o s' e, step s o = (s', Refused e) -> s' = s.
